@@ -1113,6 +1113,10 @@ def run_via(history):
                     viol.append(V('via_circuit_exact', 'connect_did_not_complete',
                                   'connection %d: stream %d succeeded on circuit %d but connect() outcome is %r; expected its protocol'
                                   % (i, sid, want, c['result']), history))
+            if healthy and c['started'] and sid is None and any(r[0] == 'err' for r in c['result']):
+                viol.append(V('via_circuit_exact', 'healthy_connect_refused',
+                              'connection %d through BUILT circuit %d failed before any stream existed: %r; expected it to be attached to circuit %d'
+                              % (i, want, [type(r[1]).__name__ + ': ' + str(r[1])[:80] for r in c['result']], want), history))
         # --- unrelated streams
         for j, sid in sorted(unrelated.items()):
             kind = history['unrelated'][j]
